@@ -55,7 +55,7 @@ bool Hist::opLookups() {
     int n = 0, vk;
     int rounds = (int)o.geti("lookups", 10);
     for (int r = 0; r < rounds; ++r) {
-        int kind = rng.range(0, 14);
+        int kind = rng.range(0, 15);
         switch (kind) {
         case 0: C11_POS("data.frame", s.frames.size(), SFrame g = takeFrame(c.data().frame(i)), g == s.frames[i]); break;
         case 1: { if (s.frames.empty()) break; size_t f = rng.below(s.frames.size()); const SFrame& F = s.frames[f];
@@ -86,6 +86,21 @@ bool Hist::opLookups() {
         case 10: C11_POS("header.eventsTime", s.h.etimes.size(), uint32_t t = fbits(c.header().eventsTime(i)), t == s.h.etimes[i]); break;
         case 11: C11_POS("header.eventsDisplay", s.h.edisp.size(), size_t t = c.header().eventsDisplay(i), t == s.h.edisp[i]); break;
         case 12: C11_POS("header.eventsLabel", s.h.elab.size(), std::string t = c.header().eventsLabel(i), t == s.h.elab[i]); break;
+        case 15: { // the whole-container getters must agree with the positional ones
+            bool same = true; std::string what;
+            try {
+                if (c.data().frames().size() != s.frames.size()) { same = false; what = "Data::frames"; }
+                if (c.parameters().groups().size() != s.groups.size()) { same = false; what = "Parameters::groups"; }
+                if (same && !s.groups.empty()) { size_t g = rng.below(s.groups.size()); const std::vector<Param>& v = c.parameters().group(g).parameters(); if (v.size() != s.groups[g].params.size()) { same = false; what = "Group::parameters"; } else if (!v.empty()) { size_t q = rng.below(v.size()); if (takeParam(v[q]) != s.groups[g].params[q]) { same = false; what = "Group::parameters[i]"; } } }
+                if (same && !s.frames.empty()) { size_t f = rng.below(s.frames.size()); const SFrame& F = s.frames[f];
+                    const std::vector<Point>& pv = c.data().frame(f).points().points(); if (pv.size() != F.pts.size()) { same = false; what = "Points::points"; }
+                    else if (!pv.empty()) { size_t i = rng.below(pv.size()); std::vector<float> d4 = pv[i].data(); if (pv[i].name() != F.pts[i].name || d4.size() != 4 || fbits(d4[0]) != F.pts[i].v[0] || fbits(d4[3]) != F.pts[i].v[3]) { same = false; what = "Point::data"; } }
+                    const std::vector<SubFrame>& sv = c.data().frame(f).analogs().subframes(); if (sv.size() != F.subs.size()) { same = false; what = "Analogs::subframes"; }
+                    else if (!sv.empty()) { size_t q = rng.below(sv.size()); const std::vector<Channel>& cv = sv[q].channels(); if (cv.size() != F.subs[q].size()) { same = false; what = "SubFrame::channels"; } else if (!cv.empty()) { size_t k = rng.below(cv.size()); if (cv[k].name() != F.subs[q][k].name || fbits(cv[k].data()) != F.subs[q][k].v) { same = false; what = "SubFrame::channels[k]"; } } } }
+            } catch (const std::exception& e) { same = false; what = std::string("exception ") + e.what(); }
+            ++n; bump("c11:whole_container_getters");
+            if (!same) log.viol("C11", "whole_container_getter_disagrees/" + what.substr(0, what.find(' ')), what);
+            break; }
         case 13: { // caller-built containers may hold duplicate names: the FIRST exact match wins
             static const char* nm[] = {"dupA", "dupB", "dupA", "other", "dupB", "dupA"};
             Points P; SubFrame S; std::vector<std::string> names; size_t cnt = (size_t)rng.range(3, 6);
